@@ -8,6 +8,7 @@ package server
 
 import (
 	"bytes"
+	"sort"
 	"encoding/json"
 	"errors"
 	"fmt"
@@ -96,6 +97,7 @@ type c18Case struct {
 	Follow  string `json:"follow,omitempty"`     // follow-up op with a fault
 	FFault  int    `json:"follow_fault,omitempty"`
 	RealDial bool  `json:"real_dial,omitempty"`
+	Mutated string `json:"mutated_request_data,omitempty"` // JSON of the request data with one subtree replaced (type confusion: the decode step fails)
 }
 
 func c18Run(cs c18Case) (viol string, sig string) {
@@ -152,7 +154,13 @@ func c18Run(cs c18Case) (viol string, sig string) {
 			bodies = append(bodies, "PANIC "+a.Panic)
 		}
 	}
-	send("create", d, cs.FaultAt)
+	if cs.Mutated != "" {
+		var md interface{}
+		_ = json.Unmarshal([]byte(cs.Mutated), &md)
+		send("create", md, 0)
+	} else {
+		send("create", d, cs.FaultAt)
+	}
 	id := map[string]interface{}{"task_id": "sec"}
 	seq := []string{"get", "list", "pause", "get", "resume", "list", "restart", "get", "position", "delete"}
 	for _, op := range seq {
@@ -230,9 +238,27 @@ func TestVerifC18Secrets(t *testing.T) {
 			}
 		}
 		cases = append(cases, c18Case{Kind: kind, RealDial: true})
+		// every single-subtree mutation of the request (type confusion, null, nesting, huge number): the decode / validation
+		// error paths see a request that still carries the other credential fields
+		var muts []string
+		for _, m := range c19Mutate(c18Creates()[kind]) {
+			b, err := json.Marshal(m)
+			if err != nil {
+				continue
+			}
+			muts = append(muts, string(b))
+		}
+		sort.Strings(muts)
+		for i, m := range muts {
+			if i > 0 && muts[i-1] == m {
+				continue
+			}
+			cases = append(cases, c18Case{Kind: kind, Mutated: m})
+		}
 	}
+	sort.SliceStable(cases, func(i, j int) bool { return cases[i].Kind < cases[j].Kind })
 	res.Bounds["cases"] = len(cases)
-	res.Rule = "for each credential-bearing create request kind (Milvus token, Milvus user+password, Kafka SASL user+password; canary secrets in every credential field): the plain request, every adversarial variant of the C19 list, a metadata-store failure at each of the first 8 store calls of create, a store failure at each of the first 5 store calls of each follow-up (get, list, pause, resume, restart, delete, position), and one variant where the real connectivity probe runs against a closed loopback port; all through the real HTTP handler with the process logger swapped for a debug-level buffer; oracle: no canary substring in any response body or log line; non-trivial = cases with a failure injected"
+	res.Rule = "for each credential-bearing create request kind (Milvus token, Milvus user+password, Kafka SASL user+password; canary secrets in every credential field): the plain request, every adversarial variant of the C19 list, a metadata-store failure at each of the first 8 store calls of create, a store failure at each of the first 5 store calls of each follow-up (get, list, pause, resume, restart, delete, position), one variant where the real connectivity probe runs against a closed loopback port, and every single-subtree mutation of the request data (13 mutant values per field: type confusion, null, nesting, huge number - the decode and validation error paths); all through the real HTTP handler with the process logger swapped for a debug-level buffer; oracle: no canary substring in any response body or log line; non-trivial = cases with a failure injected"
 	for i, cs := range cases {
 		if !ev.Mine(i) {
 			continue
@@ -246,7 +272,7 @@ func TestVerifC18Secrets(t *testing.T) {
 			res.Violate(sig, fmt.Sprintf("case %+v: %s", cs, v), cs)
 			continue
 		}
-		if cs.Adv != "" || cs.FaultAt > 0 || cs.FFault > 0 || cs.RealDial {
+		if cs.Adv != "" || cs.FaultAt > 0 || cs.FFault > 0 || cs.RealDial || cs.Mutated != "" {
 			res.Nontrivial++
 		}
 		res.Outcome(cs.Kind)
